@@ -22,6 +22,9 @@ type replWorkload struct {
 	EndAt     int64
 	LeaderMod func(c *hapi.Config)
 	Stale     bool // the follower starts from a stale directory (it had synced an earlier prefix, then was down)
+	Burst     int   // >0: at BurstAt the leader->follower stream is held back, Burst records are produced, then the stream is released at once
+	BurstAt   int64
+	Sparse    bool // cut positions on a coarse grid only (long streams)
 }
 
 func c09Workloads(quick bool) []replWorkload {
@@ -46,6 +49,8 @@ func c09Workloads(quick bool) []replWorkload {
 		{Name: "rotation", Steps: base, JoinAt: 2500 * ms, EndAt: 30 * sec, LeaderMod: func(c *hapi.Config) { c.RewriteSz = 12 + 64*3; c.FileBuf = 64 }},
 		{Name: "small-ring-buffer", Steps: base, JoinAt: 2500 * ms, EndAt: 40 * sec, LeaderMod: func(c *hapi.Config) { c.RingSz = 256; c.RingMaxSz = 256 }},
 	}
+	// a slow follower: 600 records become readable at once (more than the follower's 256 receive buffers)
+	ws = append(ws, replWorkload{Name: "burst-of-600-records", Steps: base, JoinAt: 2500 * ms, EndAt: 40 * sec, Burst: 600, BurstAt: 12 * sec, Sparse: true})
 	if !quick {
 		var many []TStep
 		many = append(many, base...)
@@ -111,6 +116,21 @@ func runRepl(w *replWorkload, cut1, cut2 int) replOutcome {
 				out.Err = "follower start: " + err.Error()
 			}
 		}
+		burst := func() {
+			vrt.AdvanceTo(w.BurstAt)
+			for _, l := range vnet.Links() {
+				if l.DialGroup == "n1" && l.ListenAddr == nodeAddr(0) {
+					l.BtoA.Hold = true
+				}
+			}
+			for i := 0; i < w.Burst; i++ {
+				_ = c.Send(wire.BinFrame(withEF(hapi.Cmd{Type: 1, Req: byte(i), DB: 1, Key: byte(100 + i/250), Id: byte(i % 250), Expried: 600, Count: 0xffff}, efZeroAof)))
+			}
+			vrt.Quiesce()
+			for _, l := range vnet.Links() {
+				l.BtoA.Hold = false
+			}
+		}
 		for _, st := range steps {
 			if follower == nil && st.At >= w.JoinAt {
 				vrt.AdvanceTo(w.JoinAt)
@@ -125,6 +145,9 @@ func runRepl(w *replWorkload, cut1, cut2 int) replOutcome {
 		if follower == nil {
 			vrt.AdvanceTo(w.JoinAt)
 			join()
+		}
+		if w.Burst > 0 {
+			burst()
 		}
 		vrt.AdvanceTo(w.EndAt)
 		out.Leader = holdsOnly(leader.Snapshot())
@@ -201,6 +224,12 @@ func c09Cases(quick bool) []EnumCase {
 		}
 		out = append(out, mkCase(fmt.Sprintf("%s/baseline", w.Name), c09Arg{wi, -1, 0, -1}))
 		chunk := 24
+		if w.Sparse {
+			for f := 7; f < n; f += 1531 {
+				out = append(out, mkCase(fmt.Sprintf("%s/cut/%d", w.Name, f), c09Arg{wi, f, f + 1, -1}))
+			}
+			continue
+		}
 		for f := 0; f < n; f += chunk {
 			t := f + chunk
 			if t > n {
